@@ -638,8 +638,10 @@ fn sweep_histories(rep: &mut Report, alphabet: &'static [&'static str], tag: &st
         for (site, msg, hist) in panics {
             // recorded class: a function body that captures `ans` / `_` is typed with the last result
             // of its definition time but reads the current one when called
-            let last = hist.lines().last().unwrap_or("");
-            let captures = (hist.contains("fn rda() = ans") && last.contains("rda(")) || (hist.contains("fn rdb(x) = x + _") && last.contains("rdb("));
+            // (the capturing function must have been called after its definition: the mistyped value
+            // may also surface one statement later, through `ans`)
+            let called_after = |def: &str, call: &str| hist.find(def).map(|p| hist[p + def.len()..].contains(call)).unwrap_or(false);
+            let captures = called_after("fn rda() = ans", "rda(") || called_after("fn rdb(x) = x + _", "rdb(");
             let key = if captures { "class:last-result-captured-in-function-body".to_string() } else { format!("callsite:{site}") };
             rep.violation(
                 key,
